@@ -1,12 +1,14 @@
 # claim table, exec'd by mkmanifest.py
 claim("C01",
-      "table/constant comparison against an independent calendar oracle; finite maps; derive/layout facts (static, over compiler-evaluated consts and MIR)",
-      "Decides the table, constant and layout clauses of C01 for all inputs at once: every cell of YEAR_TO_FLAGS, MDL_TO_OL, OL_TO_MDL, YEAR_DELTAS, "
-      "the year-class functions as finite maps, the packed-date layout and range-end constants, derived Eq/Ord/Hash over the packed field, the weekday "
-      "match table and the cycle constants of every day-number conversion. A wrong cell or constant corrupts a thin slice of dates that no test literal hits; "
-      "the comparison covers the whole table. The branchy arithmetic that combines the tables is not decided.",
-      "Trusted: rustc's const evaluator and MIR; specs/tables/calendar_oracle.py (cross-checked against Python datetime on every run).",
-      "DESIGN.md 5/C01")
+      "table/constant comparison against an independent calendar oracle; finite maps over the year classes of the 400-year cycle (def-use terms folded, no execution) with a periodicity lemma; derive/layout facts",
+      "Decides: every cell of YEAR_TO_FLAGS, MDL_TO_OL, OL_TO_MDL, YEAR_DELTAS, the packed layout and range-end constants, derived Eq/Ord/Hash over the packed field; and, as "
+      "complete finite maps over one representative year per year class (quick: 14 classes; thorough: all 400 years of the cycle plus a negative cycle) with the lemma that the "
+      "constructors use the year only through year mod 400, its packed position and the range test: from_ymd_opt on every (m in 0..=13, d in 0..=32), from_yo_opt on every ordinal "
+      "0..=367, from_isoywd_opt on every (week 0..=54, weekday) incl. spill into neighbour years, month/day/weekday/successor of every date, predecessor / ISO week / day number and "
+      "its inverse around every year boundary (thorough: every date), and all constructors, succ/pred and day numbers at both ends of the supported range and the i32 extremes. "
+      "Not decided: day-number conversion and ISO week for dates in the middle of a year in the quick tier; years are covered through the class lemma, not one by one.",
+      "Trusted: rustc's const evaluator and MIR; specs/tables/calendar_oracle.py (cross-checked against Python datetime on every run); term reconstruction and folding in analysis/sym.py + finmap.py.",
+      "DESIGN.md 5/C01, 11.2")
 claim("C04",
       "read-set / copy / who-may-write / call-direction / must-pass-through rules over MIR with def-use term reconstruction",
       "Decides the shape clauses of C04 for every execution: ==, <, cmp, hash of DateTime read only the UTC field and delegate to derived NaiveDateTime impls; "
